@@ -13,6 +13,11 @@ A trace case:
    'cad': None | [sel_ms, wait_ms, cleanup_ms], 'steps': [[op, dt, ...], ...]}
 ops (dt = clock units added before the op):
   ['rd', dt, n]    client sends the next n bytes of its stream; client fd handled as readable
+  ['rx', dt, o]    client sends 3 bytes; client fd handled as readable and the client socket's recv() has
+                   the scripted outcome o: 'want' (ssl.SSLWantReadError after consuming the bytes: an incomplete
+                   TLS record; handle_readables returns False), 'block' (BlockingIOError), 'oserr'
+                   (OSError EHOSTUNREACH), 'reset' (ConnectionResetError), 'timeout' (TimeoutError), 'eof'
+                   (b'') — the last five end reading (handle_readables returns True)
   ['wr', dt]       client fd handled as writable
   ['rw', dt, n]    both in one handle_events call
   ['q', dt, k, L]  (plain) k chunks of L bytes are queued for the client (scripted upstream/plugin output)
@@ -24,7 +29,9 @@ ops (dt = clock units added before the op):
                    top of HttpProtocolHandler.run())
 A cadence case: {'kind': 'cadence', 'cad': None | [sel_ms, wait_ms, cleanup_ms], 'n': iterations}
 """
+import ssl
 import math
+import errno
 import logging
 import time as _time
 import socket
@@ -43,7 +50,7 @@ THEOREMS = [
     'Px.Idle.C20_bound', 'Px.Idle.C20_bound_threadless', 'Px.Idle.C20_bound_threadless_impl',
     'Px.Idle.C20_bound_threaded',
 ]
-RULE = ('trace: timed op list (client send+readable, client writable, queued output, upstream read/write, loop '
+RULE = ('trace: timed op list (client send+readable with scripted recv outcome, client writable, queued output, upstream read/write, loop '
         'iteration) run on the real HttpProtocolHandler inside the real Threadless._run_forever / '
         'HttpProtocolHandler.run loops under a virtual clock (unit 1/1024 s) and on the model; per step '
         'last_activity, _num_buffer, reaper runs, is_inactive(), reaped/EOF are compared; iteration times are '
@@ -52,14 +59,16 @@ RULE = ('trace: timed op list (client send+readable, client writable, queued out
 ASSUMPTIONS = [
     'iteration duration bound D and continued running of the loop are hypotheses of the bound theorems (environment)',
     'virtual clock: time.time as seen by proxy.http.handler is non-decreasing; unit 1/1024 s makes float arithmetic exact',
-    'queued chunks are non-empty and the client socket accepts what is flushed (no BlockingIOError) in the harness runs',
+    'queued chunks are non-empty and the client socket accepts what is flushed (no BlockingIOError on send) in the harness runs',
+    'recv outcomes SSLWantReadError / BlockingIOError / OSError / ConnectionResetError / TimeoutError / EOF are scripted on a '
+    'wrapped client socket; a real TLS handshake is not run',
     'non-default cadence constants in correspondence cases stay >= 1 ms away from exact tick*(select+wait) == cleanup '
     'ties (the implementation evaluates that test in binary floating point; for the shipped constants the margin is '
     'proved to be >= 12 ms)',
     'TLS-wrapped client connections and plugins that replace handler.work are not exercised',
 ]
 EXHAUSTIVE = {'thorough': True}
-EXPLANATION = ('thorough tier includes every op sequence of length <= 4 over {rd, wr, q, it} x dt in {0,1,2,3} units '
+EXPLANATION = ('thorough tier includes every op sequence of length <= 4 over {rd, rx-want, rx-eof, wr, q, it} x dt in {0,1,3} units '
                'with timeout 2 units in both modes (threadless with cleanup period 0/1); the quantifier itself '
                '(all timeouts, unbounded traces) is covered by the theorems')
 UNIT = 1024
@@ -93,6 +102,55 @@ class _FakeTime:
 
     def __getattr__(self, k):
         return getattr(_time, k)
+
+
+TERMINAL = ('block', 'oserr', 'reset', 'timeout', 'eof')
+
+
+class _ClientSock:
+    """Proxy-side client socket whose next recv() outcome can be scripted (a TLS layer reporting an
+    incomplete record, a reset, ...); everything else goes to the real socket."""
+
+    def __init__(self, real):
+        self._real = real
+        self.next_recv = None
+
+    def fileno(self):
+        return self._real.fileno()
+
+    def setblocking(self, flag):
+        self._real.setblocking(flag)
+
+    def recv(self, bufsize, *a):
+        o, self.next_recv = self.next_recv, None
+        if o is None:
+            return self._real.recv(bufsize)
+        try:
+            self._real.recv(bufsize)        # the lower layer consumed what was on the wire
+        except OSError:
+            pass
+        if o == 'want':
+            raise ssl.SSLWantReadError()
+        if o == 'block':
+            raise BlockingIOError(errno.EAGAIN, 'scripted')
+        if o == 'oserr':
+            raise OSError(errno.EHOSTUNREACH, 'scripted')
+        if o == 'reset':
+            raise ConnectionResetError(errno.ECONNRESET, 'scripted')
+        if o == 'timeout':
+            raise TimeoutError(errno.ETIMEDOUT, 'scripted')
+        if o == 'eof':
+            return b''
+        raise ValueError(o)
+
+    def send(self, data, *a):
+        return self._real.send(data)
+
+    def shutdown(self, how):
+        self._real.shutdown(how)
+
+    def close(self):
+        self._real.close()
 
 
 _FLAGS = {}
@@ -146,6 +204,7 @@ class _Run:
         self.runs = 0
         self.probing = False
         self.reaped_at = None
+        self.torn_at = None
         self.stream = _client_stream(self.sess)
         self.spos = 0
         self.connected = False
@@ -156,6 +215,8 @@ class _Run:
 
     # -- plumbing ---------------------------------------------------------
     def alive(self):
+        if self.torn_at is not None:
+            return False
         if self.mode == 'threadless':
             return self.wid in self.ex.works
         return not self.finished
@@ -194,6 +255,9 @@ class _Run:
             rec['la'] = self.h.last_activity * UNIT
             rec['nbuf'] = self.h.work._num_buffer
             rec['inactive'] = self.probe()
+            rec['lingering'] = bool(self.h.reads_teared)
+        elif self.torn_at is not None:
+            rec['torn_at'] = self.torn_at
         else:
             rec['reaped_at'] = self.reaped_at if self.reaped_at is not None else t
         self.recs.append(rec)
@@ -216,6 +280,12 @@ class _Run:
             self.peer.sendall(data)
             read = len(data)
             td = await h.handle_events([cfd], [cfd] if op == 'rw' else [])
+        elif op == 'rx':
+            self.peer.sendall(b'\x17\x03\x03')
+            read = 3
+            self.csock.next_recv = step[2]
+            td = await h.handle_events([cfd], [])
+            self.csock.next_recv = None
         elif op == 'wr':
             td = await h.handle_events([], [cfd])
         elif op == 'q':
@@ -256,9 +326,16 @@ class _Run:
                 self.record(step, t, 0, 0)
                 continue
             read, td = await self.do_op(step)
-            self.record(step, t, self.drain_client(), read, td)
             if td:
+                # handle_events asked for teardown: what Threadless._run_once / run() do next
+                self.torn_at = t
+                if self.mode == 'threadless':
+                    self.ex._cleanup(self.wid)
+                    self.record(step, t, self.drain_client(), read, True)
+                    continue
+                self.pending_torn = (step, t, read)
                 return True
+            self.record(step, t, self.drain_client(), read, False)
         return True
 
     # -- the run ----------------------------------------------------------
@@ -284,6 +361,9 @@ class _Run:
         H.time = _FakeTime(self.clock)
         S.new_socket_connection = nsc
         self.finished = False
+        self.pending_torn = None
+        a = _ClientSock(a)
+        self.csock = a
         try:
             if self.mode == 'threadless':
                 from proxy.core.work.fd import LocalFdExecutor
@@ -331,6 +411,9 @@ class _Run:
                 h._run_once = self.fake_run_once
                 h.run()                                           # real loop, real shutdown
                 self.finished = True
+            if self.pending_torn is not None:
+                step, t, read = self.pending_torn
+                self.record(step, t, self.drain_client(), read, True)
             if self.pending_it is not None:
                 step, t = self.pending_it
                 self.pending_it = None
@@ -358,11 +441,11 @@ def _fmt_num(x):
 
 
 def _obs(rec, was_reaped):
-    if rec['teardown']:
-        return 'teardown!'
     if rec['alive']:
-        return '%s:%d:%d:%d:o%s' % (_fmt_num(rec['la']), rec['nbuf'], rec['runs'], rec['inactive'],
-                                    '!eof' if rec['eof'] else '')
+        return '%s:%d:%d:%d:%s%s' % (_fmt_num(rec['la']), rec['nbuf'], rec['runs'], rec['inactive'],
+                                     'l' if rec['lingering'] else 'o', '!eof' if rec['eof'] else '')
+    if 'torn_at' in rec:
+        return 'T%d%s' % (rec['torn_at'], '' if rec['eof'] else '!noeof')
     return 'R%d%s' % (rec['reaped_at'], '' if rec['eof'] else '!noeof')
 
 
@@ -416,6 +499,7 @@ def _events(case):
     t = case['start']
     chunks = []          # lengths of queued chunks (shadow of TcpConnection.buffer)
     connected = False
+    lingering = False    # reads ended while output was pending: the real handler skips all further reads
     M = case['maxsend']
     if case['mode'] == 'threaded':
         toks.append('~i,%d' % t)                 # run() tests is_inactive() before the first _run_once
@@ -433,15 +517,21 @@ def _events(case):
         t += st[1]
         if op == 'rd':
             k = 0
-            if case['sess'] == 'tunnel' and not connected:
+            if case['sess'] == 'tunnel' and not connected and not lingering:
                 connected = True
                 chunks.append(ESTABLISHED_LEN)
                 k = 1
             toks.append('r,%d,%d' % (t, k))
+        elif op == 'rx':
+            if st[2] == 'want':
+                toks.append('r,%d,0' % t)
+            else:
+                toks.append('e,%d' % t)
+                lingering = True
         elif op == 'rw':
             toks.append('~w,%d,%d' % (t, flush()))
             k = 0
-            if case['sess'] == 'tunnel' and not connected:
+            if case['sess'] == 'tunnel' and not connected and not lingering:
                 connected = True
                 chunks.append(ESTABLISHED_LEN)
                 k = 1
@@ -452,7 +542,7 @@ def _events(case):
             chunks.extend([st[3]] * st[2])
             toks.append('u,%d,%d' % (t, st[2]))
         elif op == 'ur':
-            if connected:
+            if connected and not lingering:
                 chunks.append(st[2])
                 toks.append('u,%d,1' % t)
             else:
@@ -506,21 +596,25 @@ def oracle(case):
     overdue = 0
     connected = False
     prev_alive = True
+    reads_ended = False
     for st, r in zip(case['steps'], recs):
         op, t = st[0], r['t']
         was_alive, prev_alive = prev_alive, r['alive']
-        if r['teardown']:
-            return 'unexpected-teardown'
+        if 'torn_at' in r:
+            return None          # closed because reading ended (EOF, reset, ...): not the reaper's doing
         # bytes the script made the proxy owe the client
-        if op in ('rd', 'rw') and case['sess'] == 'tunnel' and not connected and r['read']:
+        if op in ('rd', 'rw') and case['sess'] == 'tunnel' and not connected and r['read'] and not reads_ended:
             connected = True
             queued += ESTABLISHED_LEN
         elif op == 'q' and (r['alive']):
             queued += st[2] * st[3]
-        elif op == 'ur' and connected and r['alive']:
+        elif op == 'ur' and connected and r['alive'] and not reads_ended:
             queued += st[2]
-        if r['read'] or r['delivered']:
-            last_io = t          # a client-side read or write happened at t
+        if (r['read'] and not reads_ended) or r['delivered']:
+            # a client-side read (attempt on the readable descriptor, whatever its outcome) or write at t
+            last_io = t
+        if op == 'rx' and r['read'] and st[2] in TERMINAL:
+            reads_ended = True
         delivered += r['delivered']
         pending = queued - delivered > 0
         idle_past = (not pending) and (t - last_io > T)
@@ -576,6 +670,17 @@ def corpus():
                                                  ['wr', 1], ['it', T + d], ['it', 1], ['it', 1]], cad=cad))
         cs.append(_trace(mode, 'plain', T, [['q', 1, 2, 10], ['wr', 1], ['it', 2 * T], ['it', 1], ['wr', 1],
                                             ['it', T], ['it', 1], ['it', 1]], maxsend=4, cad=cad))
+    # a TLS client whose record arrives in segments (recv raises SSLWantReadError): every attempt is client
+    # activity; other recv outcomes end reading (torn down at once, or after the pending output is flushed)
+    for mode in ('threadless', 'threaded'):
+        cad = [25, 1, 0] if mode == 'threadless' else None
+        for d in (-1, 0, 1):
+            cs.append(_trace(mode, 'plain', T, [['rx', T - 3, 'want'], ['it', 5], ['rx', T - 5, 'want'], ['it', T + d],
+                                                ['it', 1], ['it', 1]], cad=cad))
+        for o in TERMINAL:
+            cs.append(_trace(mode, 'plain', T, [['it', 1], ['rx', T, o], ['it', 1], ['it', T + 1]], cad=cad))
+            cs.append(_trace(mode, 'plain', T, [['q', 1, 2, 5], ['rx', 3 * T, o], ['it', 1], ['rd', 1, 4], ['wr', T],
+                                                ['it', T + 1], ['wr', 1], ['it', 1]], cad=cad))
     # default cadence, long idle: reaped by the 40th iteration at the latest
     cs.append(_trace('threadless', 'plain', 1024, [['rd', 3, 5]] + [['it', 30]] * 90, via='arg'))
     cs.append(_trace('threadless', 'plain', 0, [['it', 0]] * 45, via='arg'))
@@ -611,7 +716,7 @@ def _gen_trace(rng, mode, big):
             dt = rng.randrange(0, 4)
         else:
             dt = rng.randrange(0, absT + 3)
-        ops = ['it'] * 5 + ['rd', 'wr', 'wr', 'nop', 'rw']
+        ops = ['it'] * 5 + ['rd', 'wr', 'wr', 'nop', 'rw', 'rx', 'rx']
         ops += ['ur', 'ur', 'uw'] if sess == 'tunnel' else ['q', 'q']
         op = rng.choice(ops)
         now += dt
@@ -631,6 +736,10 @@ def _gen_trace(rng, mode, big):
             if sess == 'tunnel' and not connected:
                 connected = True
                 chunks.append(ESTABLISHED_LEN)
+            last_io = now
+        elif op == 'rx':
+            o = rng.choice(['want'] * 6 + list(TERMINAL)) if rng.random() < 0.6 else 'want'
+            steps.append(['rx', dt, o])
             last_io = now
         elif op == 'wr':
             steps.append(['wr', dt])
@@ -657,8 +766,8 @@ def _gen_trace(rng, mode, big):
 def _small_scope():
     """every op sequence of length <= 4 over a small alphabet, timeout 2 units, dt in 0..3"""
     alpha = []
-    for dt in (0, 1, 2, 3):
-        alpha += [['rd', dt, 2], ['wr', dt], ['q', dt, 1, 3], ['it', dt]]
+    for dt in (0, 1, 3):
+        alpha += [['rd', dt, 2], ['rx', dt, 'want'], ['rx', dt, 'eof'], ['wr', dt], ['q', dt, 1, 3], ['it', dt]]
     seqs = [[]]
     out = []
     for _ in range(4):
@@ -742,7 +851,8 @@ def describe(case):
     return ['trace ' + case['mode'], 'sess ' + case['sess'],
             'timeout ' + ('<0' if case['timeout_u'] < 0 else '0' if case['timeout_u'] == 0 else '>0'),
             'iters ' + ('0' if 'it' not in ops else '<39' if ops.count('it') < 39 else '>=39'),
-            'cad ' + ('default' if not case.get('cad') else 'custom')]
+            'cad ' + ('default' if not case.get('cad') else 'custom')] + sorted(
+                set('recv ' + s[2] for s in case['steps'] if s[0] == 'rx'))
 
 
 def nontrivial(case):
